@@ -40,6 +40,16 @@ def ty_key(t):
     return t["s"]
 
 
+def alpha(keys):
+    """Renames the generic parameters ($Name) of a list of type keys by first appearance."""
+    import re
+    names = {}
+
+    def sub(m):
+        return names.setdefault(m.group(0), "$G%d" % len(names))
+    return [re.sub(r"\$[A-Za-z_][A-Za-z0-9_]*", sub, k) if isinstance(k, str) else k for k in keys]
+
+
 def peel(e):
     """Strip blocks without statements, refs/derefs and coercions."""
     while True:
@@ -339,7 +349,8 @@ class Universe:
     # ---- operator table (A1) -----------------------------------------
     def op_impls(self, crate):
         """[(op, self_key, rhs_key, out_key, impl)] for Add/Sub/Mul/Div impls of
-        the crate."""
+        the crate.  Generic parameters are named by first appearance in (self,
+        rhs, output) — $G0, $G1, … — so that renaming them changes nothing."""
         res = []
         for i in crate.impls:
             t = i.get("trait")
@@ -347,7 +358,8 @@ class Universe:
                 rhs = ty_key(i["trait_args"][1]) if len(i["trait_args"]) > 1 else ty_key(i["self_ty"])
                 out = self.impl_item(i, "Output")
                 outk = ty_key(out.get("ty_norm") or out["ty"]) if out else None
-                res.append((OPS[t], ty_key(i["self_ty"]), rhs, outk, i))
+                s_, r_, o_ = alpha([ty_key(i["self_ty"]), rhs, outk])
+                res.append((OPS[t], s_, r_, o_, i))
         return res
 
     def cmp_impls(self, crate):
